@@ -153,6 +153,14 @@ def _history(rng, proto, nops, nsess):
             tick += 1
         if rng.random() < 0.05:
             ops.append("flip")
+        if pend and rng.random() < 0.05:
+            t, i = rng.choice(pend)
+            if i in live:
+                ops.append("failrel:%d:%d" % (t, i))
+                pend.remove((t, i))
+                live.remove(i)
+                store.discard(i)
+                tick += 1
         if rng.random() < 0.03 and live:
             ops.append("ck:%d" % (nxt + 1))      # checkpoint of an unknown session: skipped
     return ops
@@ -193,6 +201,12 @@ def _structured(proto):
         [n(0), "ck2:0", "done:1", "done:0", "crash:p"],
         [n(0), "ck2:0", "done:0", "done:1", "crash:p"],
         [n(0), "ck2:0", "ckrel:0", "done:1", "done:0", "done:2", "crash:p"],
+        # the checkpoint Put fails and the session is released at once: a repetition of the Put must not land after the
+        # release's Delete (admissible only inside its own slot)
+        [n(0), "ck:0", "failrel:0:0", "crash:p"],
+        [n(0), "ck:0", "done:0", "ck:0", "failrel:1:0", "crash:e", n(1)],
+        [n(0), n(1), "ck:1", "ck:0", "failrel:1:0", "done:0", "failrel:0:1", "crash:p"],
+        [n(0), "ck:0", "done:0", "crash:p", "failrel:1:0", "crash:p"],
         # fault plan: the in-flight checkpoint Put fails with a transient Store error
         [n(0), "ck:0", "poison:0", "rel:0", "done:0", "crash:p"],
         [n(0), "ck:0", "poison:0:a", "rel:0", "done:0", "done:0", "crash:e", n(1)],
@@ -252,6 +266,10 @@ def _structured(proto):
 def _ow_cases(rng, n):
     """direct OrderedWriter histories over <=2 keys: issues (async / sync Put, Delete) and completions (ok / err)"""
     fixed = [
+        # a failed Put and a Delete of the same key, issued before / after the failure: a repetition may only come back
+        # while the failed write's slot still has the turn
+        "pa:a:1 err:a del:a ok:a", "pa:a:1 err:a del:a ok:a pa:a:2 ok:a", "pa:a:1 err:a pa:a:2 ok:a del:a ok:a",
+        "pa:a:1 pa:b:9 err:a del:a ok:b ok:a", "ps:a:1 err:a del:a ok:a",
         "pa:a:1 del:a err:a ok:a", "pa:a:1 del:a ok:a ok:a", "pa:a:1 pa:a:2 del:a err:a ok:a pa:a:3 ok:a",
         "pa:a:1 pa:a:2 err:a ok:a", "pa:a:1 pa:a:2 ok:a err:a", "pa:a:1 ps:a:2 err:a err:a", "ps:a:1 del:a pa:a:2 ok:a ok:a ok:a",
         "pa:a:1 pa:b:7 del:a ok:b err:a ok:a", "del:a err:a pa:a:1 ok:a", "pa:a:1 del:a pa:a:2 err:a ok:a ok:a",
@@ -355,7 +373,7 @@ def _monitor(case, impl):
     released, live = set(), {}
     for o, s in zip(ops, segs):
         a = o.split(":")
-        if (a[0] == "rel" and s.startswith("rel")) or (a[0] == "ckrel" and s.startswith("ckrel")) or (
+        if (a[0] == "rel" and s.startswith("rel")) or (a[0] in ("ckrel", "failrel") and s.startswith(a[0])) or (
                 a[0] == "delretry" and s.startswith("delretry sd")):
             released.add(int(a[1]))
             live.pop(int(a[1]), None)
@@ -405,6 +423,9 @@ def classify(case, impl, model):
             return "P", "a write is at the store outside its issue slot: impl infl=%s model infl=%s" % (
                 _field(impl, "infl"), _field(model, "infl"))
         return "G", "OrderedWriter result differs: impl=%r model=%r" % (impl[:300], model[:300])
+    if " LATE" in impl:
+        return "P", ("a checkpoint Put that had failed was repeated behind the release's Delete (outside its own slot): "
+                     "the image of the released session is written again")
     v = _monitor(case, impl)
     if v:
         return "P", v
